@@ -14,18 +14,21 @@ package runtime
 // trusted to have run the map initialiser: see /verif/trusted.)
 
 //@ func getSemaState
+//@ params addr
 //@ props C11
 //@ requires addr != nil
 //@ ensures C11 own-state: result != nil && result == semaMap[uintptr(addr)] && has(semaMap, uintptr(addr))
 //@ modifies everything
 
 //@ func getNotifyState
+//@ params l
 //@ props C11
 //@ requires l != nil
 //@ ensures C11 own-state: result != nil && result == notifyMap[uintptr(l)] && has(notifyMap, uintptr(l))
 //@ modifies everything
 
 //@ func semaAcquire
+//@ params addr
 //@ props C11
 //@ lock semaState.mu protects self.waiters
 //@ lock semaState.mu wait_invariant C11 sleeps-only-after-seeing-zero-under-the-lock: ghost(obs_zero) == 1
@@ -37,6 +40,7 @@ package runtime
 //@ modifies everything
 
 //@ func semaRelease
+//@ params addr
 //@ props C11
 //@ lock semaState.mu protects self.waiters
 //@ requires addr != nil
@@ -45,6 +49,7 @@ package runtime
 //@ modifies everything
 
 //@ func sync_runtime_notifyListAdd
+//@ params l
 //@ props C11
 //@ requires l != nil
 //@ ensures C11 ticket: ghost(add_one) == 1 && ghost(add_other) == 0 && ghost(stores) == 0 && ghost(cas_dec) == 0 && ghost(cas_other) == 0
@@ -52,6 +57,7 @@ package runtime
 //@ modifies l.wait
 
 //@ func sync_runtime_notifyListWait
+//@ params l t
 //@ props C11
 //@ lock notifyState.mu protects l.notify
 //@ requires l != nil
@@ -61,6 +67,7 @@ package runtime
 //@ modifies everything
 
 //@ func sync_runtime_notifyListNotifyOne
+//@ params l
 //@ props C11
 //@ lock notifyState.mu protects l.notify
 //@ requires l != nil
@@ -68,6 +75,7 @@ package runtime
 //@ modifies everything
 
 //@ func sync_runtime_notifyListNotifyAll
+//@ params l
 //@ props C11
 //@ lock notifyState.mu protects l.notify
 //@ requires l != nil
